@@ -3,6 +3,7 @@ package main
 // Calls: builtins, library models, contracts (modular), inlining, uninterpreted observers, havoc.
 
 import (
+	"strconv"
 	"sort"
 	"fmt"
 	"go/ast"
@@ -145,6 +146,18 @@ func (ex *Exec) evalBuiltin(p *Path, name string, call *ast.CallExpr) []Value {
 			if len(call.Args) > 1 {
 				n = ex.eval(p, call.Args[1]).T
 			}
+			// make panics on a negative length or capacity, and on a capacity below the length
+			if ex.safety && !ex.inContract() && ex.quantFacts == nil {
+				if _, isLit := strconv.Atoi(n); isLit != nil {
+					ex.addObl(p, ex.funcKey+"#nopanic:make@"+ex.siteLabel(call.Pos()), "safety", "make: length is not negative", "(>= "+n+" 0)", call.Pos(), "")
+				}
+				if len(call.Args) > 2 {
+					c := ex.eval(p, call.Args[2]).T
+					if _, isLit := strconv.Atoi(c); isLit != nil || c < "0" {
+						ex.addObl(p, ex.funcKey+"#nopanic:makecap@"+ex.siteLabel(call.Pos()), "safety", "make: capacity is not negative and not below the length", "(and (>= "+c+" 0) (>= "+c+" "+n+"))", call.Pos(), "")
+					}
+				}
+			}
 			return []Value{{app(mk, ex.c.constArray("Int", ex.c.SortOf(ut.Elem()), ex.c.Zero(ut.Elem())), n), t}}
 		case *types.Map:
 			mk, _, _, _ := ex.c.mapParts(t)
@@ -198,6 +211,9 @@ func (ex *Exec) lenOf(v Value, pos token.Pos) Value {
 		return Value{ex.c.sliceLen(v), intT}
 	case *types.Map:
 		f := ex.c.Fun("maplen:"+sortToken(ex.c.SortOf(v.Ty)), []string{ex.c.SortOf(v.Ty)}, "Int")
+		// the number of entries of a map is not negative (language fact)
+		srt := ex.c.SortOf(v.Ty)
+		ex.c.Axiom("maplen-nonneg:"+srt, "(forall ((m "+srt+")) (! (>= ("+f+" m) 0) :pattern (("+f+" m))))")
 		return Value{app(f, v.T), intT}
 	case *types.Pointer:
 		if a, ok := t.Elem().Underlying().(*types.Array); ok {
